@@ -464,8 +464,10 @@ func (in *c17Inst) apply(op c17Op) error {
 		o := c.obs[op.obs]
 		in.m.maybeRecordObservation(fc, c.obsAddr[op.conn][op.obs])
 		switch {
+		case in.closed[op.conn] && o.ext >= 0:
+			in.last = append(in.last, "op:obs/ext/on-closed-connection")
 		case in.closed[op.conn]:
-			in.last = append(in.last, "op:obs/"+o.cls+"/on-closed-connection")
+			in.last = append(in.last, "op:obs/ineligible/on-closed-connection")
 		case o.ext >= 0 && !cn.atListen:
 			in.last = append(in.last, "op:obs/ext/not-at-listen-address")
 		case o.ext >= 0:
